@@ -21,6 +21,7 @@ import (
 	"github.com/named-data/ndnd/std/engine/dummy"
 	"github.com/named-data/ndnd/std/log"
 	"github.com/named-data/ndnd/std/ndn"
+	spec "github.com/named-data/ndnd/std/ndn/spec_2022"
 	"github.com/named-data/ndnd/std/object"
 	sec "github.com/named-data/ndnd/std/security"
 	"github.com/named-data/ndnd/std/utils"
@@ -70,6 +71,7 @@ func TestObjGen(t *testing.T) {
 			cons := mkObjNode(object.NewMemoryStore())
 			w.Emit(map[string]any{"ev": "Reset", "store": kind})
 			objs := []string{"/obj/x", "/obj/y"}
+			newest := map[string][2]uint64{} // object -> (newest version, its size)
 			for e := 0; e < nEv; e++ {
 				on := objs[rng.Intn(2)]
 				switch k := rng.Intn(10); {
@@ -98,8 +100,12 @@ func TestObjGen(t *testing.T) {
 						panic(err)
 					}
 					w.Emit(map[string]any{"ev": "produce", "n": strs(on), "ver": ver, "hash": hsh(content), "len": sz})
+					if cur, ok := newest[on]; !ok || ver >= cur[0] {
+						newest[on] = [2]uint64{ver, uint64(sz)}
+					}
 				case k < 6:
 					store.Remove(nm(on), true)
+					delete(newest, on)
 					w.Emit(map[string]any{"ev": "remove", "n": strs(on)})
 				default:
 					var got bytes.Buffer
@@ -121,6 +127,31 @@ func TestObjGen(t *testing.T) {
 						return true
 					})
 					dropped := map[string]int{}
+					// black-hole mode: one segment (not the first) never gets through, so the fetch must fail once; the
+					// Data of the other segments is held back and arrives only after the failure was reported
+					bh := -1
+					if cur, ok := newest[on]; ok && cur[1] > 16000 && rng.Intn(4) == 0 {
+						bh = 1 + rng.Intn(2)
+					}
+					segOf := func(b enc.Buffer) int {
+						p, _, err := spec.ReadPacket(enc.NewBufferReader(b))
+						if err != nil {
+							return -1
+						}
+						var n enc.Name
+						if p.Interest != nil {
+							n = p.Interest.NameV
+						} else if p.Data != nil {
+							n = p.Data.NameV
+						}
+						for _, c := range n {
+							if c.Typ == enc.TypeSegmentNameComponent {
+								return int(c.NumberVal())
+							}
+						}
+						return -1
+					}
+					var held []enc.Buffer
 					for step := 0; step < 3000 && !done; step++ {
 						synctest.Wait()
 						var batch []enc.Buffer
@@ -134,6 +165,9 @@ func TestObjGen(t *testing.T) {
 						rng.Shuffle(len(batch), func(i, j int) { batch[i], batch[j] = batch[j], batch[i] })
 						var replies []enc.Buffer
 						for _, b := range batch {
+							if bh >= 0 && segOf(b) == bh {
+								continue
+							}
 							key := string(b[:min(48, len(b))])
 							if rng.Intn(5) == 0 && dropped[key] < 2 { // losses stay inside the retry budget (3)
 								dropped[key]++
@@ -151,6 +185,10 @@ func TestObjGen(t *testing.T) {
 						}
 						rng.Shuffle(len(replies), func(i, j int) { replies[i], replies[j] = replies[j], replies[i] })
 						for _, p := range replies {
+							if bh >= 0 && segOf(p) >= 0 {
+								held = append(held, p)
+								continue
+							}
 							cons.face.FeedPacket(p)
 						}
 						synctest.Wait()
@@ -159,11 +197,15 @@ func TestObjGen(t *testing.T) {
 							prod.timer.MoveForward(500 * time.Millisecond)
 						}
 					}
+					for _, p := range held {
+						cons.face.FeedPacket(p)
+						synctest.Wait()
+					}
 					for i := 0; i < 10; i++ { // give late callbacks a chance to (wrongly) fire again
 						cons.timer.MoveForward(time.Second)
 						synctest.Wait()
 					}
-					w.Emit(map[string]any{"ev": "consume", "n": strs(on), "completions": completions, "err": errS, "hash": hsh(got.Bytes()), "len": got.Len(), "chunksInOrder": inOrder})
+					w.Emit(map[string]any{"ev": "consume", "n": strs(on), "completions": completions, "err": errS, "hash": hsh(got.Bytes()), "len": got.Len(), "chunksInOrder": inOrder, "lossy": bh >= 0})
 				}
 				total++
 			}
